@@ -436,6 +436,8 @@ def r5_decoded_fields(ctx):
 def run(ctx):
     from . import effects
     effects.check_property(ctx, "C03")    # R03.E: no operation on shared protocol state outside the reviewed table
+    from . import C01 as _C01d
+    _C01d.r3_r4_recv_buffer(ctx)     # the loop that drives the decoder hands out every complete frame it holds before it asks for more input: the frame sequence does not depend on how the bytes were cut into reads
     r1_layout(ctx)
     r2_peek_then_consume(ctx)
     r3_totality(ctx)
